@@ -232,6 +232,9 @@ func (e *Engine) modelEffect(fn *ssa.Function) ([]Sort, bool) {
 		return []Sort{SBV8}, true
 	case strings.HasPrefix(k, "(binary.bigEndian)."), strings.HasPrefix(k, "(binary.littleEndian)."):
 		return nil, true
+	case k == "binary.Read":
+		// writes the integer its third argument points to (binaryReadModel; otherwise an uncontracted call)
+		return []Sort{SBV8, BV(16), SBV32, SBV64}, true
 	case pureModels[k]:
 		return nil, true
 	}
@@ -243,7 +246,7 @@ var pureModels = map[string]bool{
 	"strings.EqualFold": true, "strings.ToLower": true, "strings.ToUpper": true, "strings.HasPrefix": true, "strings.HasSuffix": true,
 	"strings.TrimPrefix": true, "strings.TrimSpace": true, "strings.Contains": true, "strings.Index": true,
 	"bytes.Equal": true, "strconv.Itoa": true, "strconv.Atoi": true, "strconv.Quote": true,
-	"(*strings.Builder).String": true,
+	"(*strings.Builder).String": true, "bytes.NewReader": true,
 }
 
 func boolVal(t Term) Value { return Value{T: types.Typ[types.Bool], L: []Term{t}} }
@@ -398,6 +401,9 @@ func (x *Exec) stdlibModel(fr *frame, s *State, callee *ssa.Function, args []Val
 		}
 	case strings.HasPrefix(k, "(binary.bigEndian)."), strings.HasPrefix(k, "(binary.littleEndian)."):
 		return x.binaryModel(fr, s, callee, strings.Contains(k, "bigEndian"), args, pos)
+	case k == "bytes.NewReader":
+		// a fresh reader object; its only modelled consumer is binary.Read (binaryReadModel)
+		return []Value{{T: res(0), L: []Term{x.alloc(s, "bytesreader"), BVLitI(64, 0)}, NN: true}}, true
 	case k == "errors.New", k == "fmt.Errorf":
 		r := x.alloc(s, "err")
 		tag := IntLit(x.E.typeID(types.NewPointer(types.NewNamed(types.NewTypeName(token.NoPos, nil, "errors.errorString", nil), types.NewStruct(nil, nil), nil))))
@@ -517,4 +523,158 @@ func (x *Exec) binaryModel(fr *frame, s *State, callee *ssa.Function, big bool, 
 // lockEvent is the hook for monitor semantics (see monitor.go).
 func (x *Exec) lockEvent(fr *frame, s *State, callee *ssa.Function, method string, mu Value, pos token.Pos) {
 	x.C.Trusted["sync.Mutex/RWMutex provide mutual exclusion; Lock/Unlock are sequential no-ops unless a monitor is declared"] = true
+}
+
+// binaryReadModel: binary.Read(bytes.NewReader(b), order, &v) where the reader is created
+// for this one call (its only use), v is a fixed-size integer. Exact: the call fails, leaving
+// v untouched, iff len(b) < size(v); otherwise v is the decoded prefix of b.
+func (x *Exec) binaryReadModel(fr *frame, s *State, in *ssa.Call) ([]Value, bool) {
+	c := &in.Call
+	if len(c.Args) != 3 {
+		return nil, false
+	}
+	onlyUse := func(v ssa.Value, user ssa.Instruction) bool {
+		refs := v.Referrers()
+		if refs == nil {
+			return false
+		}
+		for _, r := range *refs {
+			if _, dbg := r.(*ssa.DebugRef); dbg {
+				continue
+			}
+			if r != user {
+				return false
+			}
+		}
+		return true
+	}
+	mi, ok := c.Args[0].(*ssa.MakeInterface)
+	if !ok || !onlyUse(mi, in) {
+		return nil, false
+	}
+	src := mi.X
+	if ld, isLoad := src.(*ssa.UnOp); isLoad && ld.Op == token.MUL {
+		// naive-form SSA: the reader sits in a local variable with one store and this one load
+		a, isAlloc := ld.X.(*ssa.Alloc)
+		if !isAlloc || a.Referrers() == nil || !onlyUse(ld, mi) {
+			return nil, false
+		}
+		var stored ssa.Value
+		for _, r := range *a.Referrers() {
+			switch r := r.(type) {
+			case *ssa.DebugRef:
+			case *ssa.Store:
+				if r.Addr != a || stored != nil {
+					return nil, false
+				}
+				stored = r.Val
+			case *ssa.UnOp:
+				if r != ld {
+					return nil, false
+				}
+			default:
+				return nil, false
+			}
+		}
+		if stored == nil {
+			return nil, false
+		}
+		if call, isCall := stored.(*ssa.Call); !isCall || !onlyUseStore(call, a) {
+			return nil, false
+		}
+		src = stored
+	} else if call, isCall := src.(*ssa.Call); !isCall || !onlyUse(call, mi) {
+		return nil, false
+	}
+	nr, ok := src.(*ssa.Call)
+	if !ok || nr.Call.StaticCallee() == nil || x.E.fnKey(nr.Call.StaticCallee()) != "bytes.NewReader" {
+		return nil, false
+	}
+	om, ok := c.Args[1].(*ssa.MakeInterface)
+	if !ok {
+		return nil, false
+	}
+	var big bool
+	switch om.X.Type().String() {
+	case "encoding/binary.bigEndian":
+		big = true
+	case "encoding/binary.littleEndian":
+		big = false
+	default:
+		return nil, false
+	}
+	dm, ok := c.Args[2].(*ssa.MakeInterface)
+	if !ok {
+		return nil, false
+	}
+	pt, ok := dm.X.Type().Underlying().(*types.Pointer)
+	if !ok {
+		return nil, false
+	}
+	bt, ok := pt.Elem().Underlying().(*types.Basic)
+	if !ok {
+		return nil, false
+	}
+	var n int
+	switch bt.Kind() {
+	case types.Uint8, types.Int8:
+		n = 1
+	case types.Uint16, types.Int16:
+		n = 2
+	case types.Uint32, types.Int32:
+		n = 4
+	case types.Uint64, types.Int64:
+		n = 8
+	default:
+		return nil, false
+	}
+	b := x.operand(fr, s, nr.Call.Args[0])
+	dst := x.operand(fr, s, dm.X)
+	okc := x.C.Define("binread_ok", BVCmp("bvuge", b.L[2], BVLitI(64, int64(n))))
+	h := x.heap(s, SBV8)
+	obj := Select(h, b.L[0], ObjSort(SBV8))
+	var parts []string
+	for i := 0; i < n; i++ {
+		k := i
+		if !big {
+			k = n - 1 - i
+		}
+		parts = append(parts, Select(obj, offAdd(b.L[1], int64(k)), SBV8).S)
+	}
+	var dec Term
+	if n == 1 {
+		dec = Term{parts[0], SBV8}
+	} else {
+		dec = Term{"(concat " + strings.Join(parts, " ") + ")", BV(8 * n)}
+	}
+	cur := x.load(fr, s, dst, pt.Elem(), in.Pos())
+	x.store(fr, s, dst, Value{T: pt.Elem(), L: []Term{x.C.Define("binread", Ite(okc, dec, cur.L[0]))}}, in.Pos())
+	r := x.alloc(s, "err")
+	tag := IntLit(x.E.typeID(types.NewPointer(types.NewNamed(types.NewTypeName(token.NoPos, nil, "errors.errorString", nil), types.NewStruct(nil, nil), nil))))
+	errT := c.Signature().Results().At(0).Type()
+	out := Value{T: errT, L: []Term{Ite(okc, IntLit(0), tag), Ite(okc, IntLit(0), r), BVLitI(64, 0)}}
+	x.C.Trusted["binary.Read(bytes.NewReader(b), order, &v) for a reader used once: fails iff len(b) < size(v), else v = decoded prefix (exact model of the stdlib fast path)"] = true
+	return []Value{out}, true
+}
+
+// onlyUseStore: the only use of v is one store into the local a.
+func onlyUseStore(v ssa.Value, a *ssa.Alloc) bool {
+	refs := v.Referrers()
+	if refs == nil {
+		return false
+	}
+	n := 0
+	for _, r := range *refs {
+		switch r := r.(type) {
+		case *ssa.DebugRef:
+		case *ssa.Store:
+			if r.Addr != a || r.Val != v {
+				return false
+			}
+			n++
+		default:
+			return false
+		}
+	}
+	return n == 1
 }
